@@ -48,7 +48,9 @@ def runMonitor (pid : String) (c : MonCtx) (ls : List Label) : Option (Option Na
         | none => ff monUniq ls))
   | "C07" => some (match ff (monC07 c) ls with
       | some k => some k
-      | none => ff (monC07o c) ls)
+      | none => match ff (monC07o c) ls with
+        | some k => some k
+        | none => ff monWf01 ls)    -- hypothesis of `C07o_holds`: message numbers and operation ids are fresh
   | "C10" => some (match ff (monC10 c) ls with
       | some k => some k
       | none => ff (monC10q c) ls)
@@ -67,7 +69,11 @@ def runMonitor (pid : String) (c : MonCtx) (ls : List Label) : Option (Option Na
       | none => ff (monC15iw c) ls)
   | "C17" => some (match ff (monC17 c) ls with
       | some k => some k
-      | none => ff (monC17n c) ls)
+      | none => match ff (monC17n c) ls with
+        | some k => some k
+        | none => match ff (monC02wf c) ls with     -- hypotheses of `C17n_holds`: fresh operation ids,
+          | some k => some k
+          | none => ff monC17nwf ls)                -- and `consume(self)` is the last use of the owning address
   | _ => none
 
 def allMonitors : List String :=
